@@ -59,7 +59,12 @@ func Define(creator func(args List) Object, doc *FuncDoc, pkgs ...*Package) {
 // NewFunc creates a new instance of the named function with the arguments
 // provided.
 func NewFunc(name string, args List, pkgs ...*Package) Funky {
-	fi := MustFindFunc(name, pkgs...)
+	// A call to a function with only a forward reference placeholder shares
+	// that placeholder.
+	fi := findFunc(name, pkgs...)
+	if fi == nil {
+		fi = MustFindFunc(name, pkgs...)
+	}
 	f, _ := fi.Create(args).(Funky)
 	f.setPkg(fi.Pkg)
 
@@ -79,8 +84,17 @@ func MustFindFunc(name string, pkgs ...*Package) *FuncInfo {
 		printer.caseName(name), pkg.Name))
 }
 
-// FindFunc finds the FuncInfo for a provided name or return nil if none exists.
+// FindFunc finds the FuncInfo for a provided name or return nil if none
+// exists. The placeholder CompileList registers for a call to a function that
+// is not yet defined, a FuncInfo without a Doc, does not count.
 func FindFunc(name string, pkgs ...*Package) (fi *FuncInfo) {
+	if fi = findFunc(name, pkgs...); fi != nil && fi.Doc == nil {
+		fi = nil
+	}
+	return
+}
+
+func findFunc(name string, pkgs ...*Package) (fi *FuncInfo) {
 	// private indicates non-exported okay, referenced with ::
 	pkg, vname, private := UnpackName(name)
 	if pkg == nil {
